@@ -443,6 +443,46 @@ struct TemplateCore {
 
                                     bool skip = false;
 
+                                    // Every sub-tag has to lie inside the text of 'true' or of 'false'; otherwise
+                                    // the attributes are malformed and the tag stays literal text.
+                                    {
+                                        const SizeT   true_start  = (tag.Offset + tag.TrueOffset);
+                                        const SizeT   true_end    = (true_start + tag.TrueLength);
+                                        const SizeT   false_start = (tag.Offset + tag.FalseOffset);
+                                        const SizeT   false_end   = (false_start + tag.FalseLength);
+                                        const TagBit *c_tag       = s_tag;
+
+                                        while (c_tag < s_tag_end) {
+                                            SizeT s_start = 0;
+                                            SizeT s_end   = 0;
+
+                                            if (c_tag->GetType() == TagType::Math) {
+                                                s_start = c_tag->GetMathTag().Offset;
+                                                s_end   = c_tag->GetMathTag().EndOffset;
+                                            } else if ((c_tag->GetType() == TagType::Variable) ||
+                                                       (c_tag->GetType() == TagType::RawVariable)) {
+                                                const VariableTag &c_var = c_tag->GetVariableTag();
+                                                s_start = (c_var.Offset - TagPatterns::VariablePrefixLength);
+                                                s_end   = (c_var.Offset + c_var.Length + TagPatterns::InLineSuffixLength);
+                                            }
+
+                                            if (!(((tag.TrueOffset != SizeT16{0}) && (s_start >= true_start) &&
+                                                   (s_end <= true_end)) ||
+                                                  ((tag.FalseOffset != SizeT16{0}) && (s_start >= false_start) &&
+                                                   (s_end <= false_end)))) {
+                                                skip = true;
+                                                break;
+                                            }
+
+                                            ++c_tag;
+                                        }
+
+                                        if (skip) {
+                                            storage->Drop(SizeT{1});
+                                            s_tag = s_tag_end;
+                                        }
+                                    }
+
                                     while (s_tag < s_tag_end) {
                                         switch (s_tag->GetType()) {
                                             case TagType::Variable:
